@@ -227,11 +227,24 @@ func (r *bungeeCordMessageResponder) processForwardToServer(in io.Reader) {
 			if server.Name() == currentUserServer {
 				continue // skip current server
 			}
-			server.BroadcastPluginMessage(bungeeCordLegacyChannel, forward)
+			r.forwardToServer(server, forward)
 		}
 	} else {
 		if server := r.Server(target); server != nil {
-			server.BroadcastPluginMessage(bungeeCordLegacyChannel, forward)
+			r.forwardToServer(server, forward)
+		}
+	}
+}
+
+// forwardToServer delivers a forwarded payload to the backend server once, through the
+// server connection of one of the players on it (a server without players cannot be
+// reached, as in BungeeCord). It must not be sent to the players' clients.
+func (r *bungeeCordMessageResponder) forwardToServer(server Server, forward []byte) {
+	for _, player := range server.Players() {
+		conn := r.ConnectedServerOf(player)
+		if conn != nil && conn.Name() == server.Name() {
+			r.sendTo(conn, forward)
+			return
 		}
 	}
 }
